@@ -136,7 +136,7 @@ PROPS = {
     'C08': {
         'level': 'proof',
         'explanation': 'MultiExecMatcher (real bodies, the RefCell as an opaque cell with per-call transition obligations, R8): matches is always true and puts the path (./basename under -execdir) into exactly one invocation, after the paths already collected: (batches dispatched by the call) ++ (batch still pending) == (pending before) ++ [path]; a batch is dispatched early only when argmax refuses the path, unchanged, under -execdir from the entry\'s directory; run_command turns find\'s exit status non-zero when an invocation fails or cannot start and never resets it; finished_dir flushes and empties an -execdir batch from that directory, finished the -exec batch; process_dir calls finished_dir before leaving a directory and both hooks after the loop, also after -quit, and offers each entry while current_dir is its parent (unit walk); the -exec arm of the parser recognises `{} +` and the single-{} rule (unit parse).',
-        'assumptions': ['argmax::Command::try_arg (Ok: appended and still within the limits it computes; Err: unchanged) and that its accounting implies acceptance by execve', 'RefCell: the value persists between calls and no second borrow is live (syntactic: nothing called while the guard lives reaches self.command)', 'std::path file_name/parent/join uninterpreted'],
+        'assumptions': ['argmax::Command::try_arg (Ok: appended and still within the limits it computes; Err: unchanged) and that its accounting implies acceptance by execve', 'MultiExecMatcher::new (unit execnew, body verbatim): the fixed arguments are the arguments as given, byte for byte and in order, the executable and the -execdir flag kept, no batch pending at the start; assumed: OsString::from(&str), map/collect in order', 'RefCell: the value persists between calls and no second borrow is live (syntactic: nothing called while the guard lives reaches self.command)', 'std::path file_name/parent/join uninterpreted'],
         'not_decided': ['OS acceptance of a batch (argmax), process spawning'],
     },
     'C17': {
@@ -158,7 +158,7 @@ DEPENDS = {
     'C10': ['C01', 'C02', 'C03'],   # same set and order as -depth EXPR -print
     'C09': ['C01'],                 # "once for each file on which the action is reached, at that point of the evaluation"
     'C08': ['C01'],
-    'C03': ['C02'],                 # visit order presupposes the configured walk
+    'C03': ['C02', 'C01'],          # visit order presupposes the configured walk; the prune mark travels from -prune to the walk through the combinators, which must leave it alone (seed C03-13)
     'C18': ['C02'],
     'C07': ['C05', 'C04', 'C18'],          # xargs -0 splitting; "delivers every matched path exactly once" presupposes the batching and its cost model
     'C20': ['C05'],
